@@ -153,7 +153,16 @@ def items_of(result):
         return []           # IGNORE_GCODE_CMD = (None,)
     if hasattr(result, "items") and not isinstance(result, dict):
         return list(result.items)
+    if hasattr(result, "getter") and hasattr(result, "length"):
+        # a symbolic sequence handed back as is (e.g. the configured script object itself): one spliced script
+        return [_Spliced(result)]
     return list(result)
+
+
+class _Spliced(object):
+    def __init__(self, seq):
+        self.seq = seq
+        self.name = getattr(seq, "name", "seq")
 
 
 def run(p, frame, result, cmd, orig):
